@@ -126,6 +126,12 @@ for _shape, _et, _ev in (("no-exception", "None", "None"), ("exception", "ValueE
              note="however a `with database:` block ends, commits are enabled again afterwards - the precondition of every insert contract "
                   "(_pending_commits == 0) holds again, so one failed batch cannot silently defer every later commit")
 
+contract(f"{DBF}::Database.__enter__", "__enter__.keeps-what-was-already-deferred",
+         vars={"self": db(f"{IDB}::IdentityDatabase")}, requires=["self._pending_commits >= 0"],
+         call="self.__enter__()", raises=[],
+         ensures=["self._pending_commits == max(1, old(self._pending_commits))", "result is self", "len(calls('connection.commit')) == 0"],
+         note="entering a (nested) block never forgets that an enclosing block already has a commit pending")
+
 contract(f"{DBF}::Database.__exit__", "__exit__.commits-deferred",
          vars={"self": db(f"{IDB}::IdentityDatabase")}, requires=["self._pending_commits >= 1"],
          call="self.__exit__(None, None, None)", raises=[],
